@@ -103,6 +103,10 @@ pub struct Knobs {
     /// The agent is built by a factory that fills the persistent map lanes `map` and `bmap` (instead of `Default`).
     #[serde(default)]
     pub initial_contents: bool,
+    /// The agent is a `ConnectorAgent` (swimos_connector) whose lanes `val` and `map` are opened in `on_start` and
+    /// resolved by selectors (focus DYN).
+    #[serde(default)]
+    pub connector: bool,
     /// Start value of std's hash keys on the run's thread (iteration order of the product's HashMaps).
     #[serde(default)]
     pub hash_seed: u64,
@@ -304,6 +308,7 @@ pub fn generate(seed: u64, focus: &str, _tier: Tier) -> AgentScenario {
         remote_host: root.sub("remote-host").chance(1, 2),
         all_lanes_transient: (focus == "C05" || focus == "MIX") && root.sub("lanes-transient").chance(1, 6),
         initial_contents: matches!(focus, "C05" | "C02" | "C03" | "MIX") && root.sub("initial-contents").chance(1, 5),
+        connector: focus == "DYN",
         fail_on_multiple_of: if focus == "C01" && root.sub("handler-fail").chance(1, 3) { 7 } else { 0 },
         persistent: focus != "C04F" && (focus == "C05" || focus == "C05F" || g.rng.chance(1, 3)),
         target_cap: *g.rng.pick(&[8u32, 16, 32, 64, 4096]),
@@ -311,6 +316,9 @@ pub fn generate(seed: u64, focus: &str, _tier: Tier) -> AgentScenario {
         link_delay: *g.rng.pick(&[0u32, 0, 3, 20]),
         reporting: focus == "C20" || (focus == "C04F" && g.rng.chance(1, 2)) || g.rng.chance(1, 4),
     };
+    if focus == "DYN" {
+        return generate_dyn(root, g, knobs);
+    }
     let n_peers = match focus {
         "C05" => g.rng.range(1, 2),
         _ => g.rng.range(1, 4),
@@ -920,4 +928,86 @@ pub fn shrink(sc: &AgentScenario) -> Vec<AgentScenario> {
         out.push(c);
     }
     out
+}
+
+
+/// Focus DYN: peer 0 is the only writer (commands to the dynamically opened lanes `val` and `map`), the other peers
+/// link, sync and read at their own pace. Every reader links before it syncs.
+fn generate_dyn(root: Rng, mut g: Gen, mut knobs: Knobs) -> AgentScenario {
+    knobs.persistent = false;
+    knobs.reporting = false;
+    let mut r = root.sub("dyn");
+    let key_pool = r.range(2, 7) as i32;
+    let mut peers = vec![];
+    // The writer: waits until its links are up (the lanes are opened in on_start), then writes.
+    let mut ops = vec![
+        Op::Link { lane: "val".into() },
+        Op::Link { lane: "map".into() },
+        Op::AwaitLinked { lane: "val".into() },
+        Op::AwaitLinked { lane: "map".into() },
+    ];
+    for _ in 0..r.range(3, 40) {
+        let k = r.range_i(0, key_pool as i64 - 1) as i32 + g.key_off;
+        match r.below(20) {
+            0..=3 => {
+                let v = g.vals(1);
+                ops.push(Op::Cmd { lane: "val".into(), body: v.to_string() });
+            }
+            4..=11 => {
+                let v = g.vals(1);
+                ops.push(Op::Cmd { lane: "map".into(), body: format!("@update(key:{k}) {v}") });
+            }
+            12 | 13 => ops.push(Op::Cmd { lane: "map".into(), body: format!("@remove(key:{k})") }),
+            14 => ops.push(Op::Cmd { lane: "map".into(), body: "@clear".into() }),
+            15 | 16 => ops.push(Op::Cmd { lane: "map".into(), body: format!("@take({})", r.range(0, key_pool as u64 + 1)) }),
+            17 | 18 => ops.push(Op::Cmd { lane: "map".into(), body: format!("@drop({})", r.range(0, key_pool as u64 + 1)) }),
+            _ => ops.push(Op::Pause { polls: *r.pick(&[1u32, 5, 20]) }),
+        }
+    }
+    peers.push(PeerScript {
+        id: 0,
+        out_cap: *r.pick(&[16u32, 64, 256, 4096]),
+        in_cap: *r.pick(&[16u32, 64, 4096]),
+        chunk_seed: root.sub("chunk0").next_u64(),
+        read: gen_read(&mut r, false),
+        attach_delay: 0,
+        one_way: false,
+        ops,
+        reattach_of: None,
+    });
+    for id in 1..=r.range(0, 2) as u32 {
+        let mut ops = vec![Op::Pause { polls: *r.pick(&[0u32, 10, 40, 120]) }];
+        for lane in ["val", "map"] {
+            if r.chance(3, 4) {
+                ops.push(Op::Link { lane: lane.into() });
+                ops.push(Op::AwaitLinked { lane: lane.into() });
+                if r.chance(3, 4) {
+                    ops.push(Op::Sync { lane: lane.into() });
+                }
+            }
+        }
+        peers.push(PeerScript {
+            id,
+            out_cap: *r.pick(&[8u32, 16, 64, 256, 4096]),
+            in_cap: 4096,
+            chunk_seed: root.sub(&format!("chunk{id}")).next_u64(),
+            read: gen_read(&mut r, true),
+            attach_delay: *r.pick(&[0u32, 5, 30]),
+            one_way: false,
+            ops,
+            reattach_of: None,
+        });
+    }
+    AgentScenario {
+        focus: "DYN".into(),
+        knobs,
+        peers,
+        store_fault: StoreFaultCfg::None,
+        ending: Ending::Stop,
+        restart: false,
+        restart_read_fault: None,
+        max_steps: 60_000,
+        fake: None,
+        fake_persist: None,
+    }
 }
